@@ -209,16 +209,19 @@ func (c05) Run(t *tape.Tape, st *Stats) *Violation {
 		selfCheck(st, f, data, false)
 	}
 	cfg := DrawDelivery(t, tr.Fields, true)
+	mid := DrawMidFile(t)
 	st.Class(tr.Format + ":" + variant)
 	var firstV *Violation
 	var views [2]MDView
 	var srcs [2]*simio.Source
 	for li, loader := range []Loader{SpecificLoader(tr.Format), LoaderAuto} {
 		src := simio.NewSource(simio.Bytes(data), cfg)
-		res := SafeLoad(loader, src)
+		rd, ss := mid.Wrap(src)
+		res := SafeLoad(loader, rd)
 		v := View(res)
 		views[li], srcs[li] = v, src
 		deliveryStats(st, src)
+		mid.Stats(st, ss)
 		if li == 1 {
 			straddleProbe(st, src, tr.Fields, src.Delivered)
 		}
@@ -239,7 +242,7 @@ func (c05) Run(t *tape.Tape, st *Stats) *Violation {
 		}
 		if class != "" && firstV == nil {
 			firstV = &Violation{Class: class, Sig: loader.Name + ":" + tr.Format + ":" + class,
-				Detail: fmt.Sprintf("%s on %s under %s: got %+v panic=%v, header says %s %dx%d %d bits", loader.Name, tr.Desc, cfg.String(), v, res.Panic, tr.Format, tr.W, tr.H, tr.Bits)}
+				Detail: fmt.Sprintf("%s on %s under %s: got %+v panic=%v, header says %s %dx%d %d bits", loader.Name, tr.Desc, cfg.String()+mid.String(), v, res.Panic, tr.Format, tr.W, tr.H, tr.Bits)}
 		}
 	}
 	if srcs[0].Delivered > 0 && srcs[1].Delivered > 0 {
@@ -247,7 +250,7 @@ func (c05) Run(t *tape.Tape, st *Stats) *Violation {
 	}
 	render := func() interface{} {
 		return map[string]interface{}{"input": tr.Desc, "input_len": len(data), "truth": fmt.Sprintf("%s %dx%d %d bits", tr.Format, tr.W, tr.H, tr.Bits),
-			"delivery": cfg.String(), "delivery_log": srcs[1].LogString(), "specific_loader": views[0], "autometa": views[1], "input_hex": hex(data, 400)}
+			"delivery": cfg.String() + mid.String(), "delivery_log": srcs[1].LogString(), "specific_loader": views[0], "autometa": views[1], "input_hex": hex(data, 400)}
 	}
 	if st.WantSample() {
 		st.Sample(render())
